@@ -7,7 +7,7 @@ open Sexp
 
 def pLabels (s : Sexp) : Option Labels :=
   s.args.mapM fun kv => match kv with
-    | .list [.atom k, .atom v] => some (k, v)
+    | .list [.atom k, .atom v] => some (k, if v == "~" then "" else v)   -- `~` is the empty value
     | _ => none
 
 def pOp (s : String) : Option SelOp :=
@@ -143,6 +143,9 @@ def pObj (s : Sexp) : Option Obj :=
       some (.pod { ns := ns, name := name, labels := l, ports := ← pCPorts cports, ownerKind := ok, ownerName := on,
                    variant := if on == "" then "" else variantOf l, hostIP := hip })
   | .list [.atom "np", .atom ns, .atom name, sel, types, ing, eg] => do
+      some (.np ⟨ns, name, ← pSelNN sel, ← pDirs types, ← ing.args.mapM pNPRule, ← eg.args.mapM pNPRule⟩)
+  | .list [.atom "np", .atom ns, .atom name, sel, types, ing, eg, .list [.atom "uid", _]] => do
+      -- metadata.uid is not part of what the analysis reads
       some (.np ⟨ns, name, ← pSelNN sel, ← pDirs types, ← ing.args.mapM pNPRule, ← eg.args.mapM pNPRule⟩)
   | .list [.atom "anp", .atom name, prio, subj, ing, eg] => do
       some (.anp ⟨name, ← prio.int?, ← pSubject subj, ← ing.args.mapM pARule, ← eg.args.mapM pARule⟩)
